@@ -590,6 +590,13 @@ def run_case(case, keep=None, on_tree=None):
                           except Exception as e:
                               fail("regenerate-properties-failed", "step %d: %s: %s" % (si, type(e).__name__, e))
                               raise _Stop()
+                          # asked once more, the tool finds the file it has just made: whatever it answers (it refuses), the
+                          # channel must stay what it is - the sessions and reads that follow find out
+                          try:
+                              with rfharness.quiet_fds():
+                                  rfharness.drf().recreate_properties_file(chd)
+                          except Exception:
+                              pass
                   elif kind == "linkify":
                       chd = os.path.join(tops[st_["dir"]], "ch0")
                       store = os.path.join(base, "store%d" % st_["dir"])
